@@ -451,6 +451,68 @@ pub fn exec_special(ctx: &mut Ctx, ex: &mut Extra, hist: &mut Vec<String>, toks:
             let board = &mut ctx.board;
             guard(|| format!("perft {} {}", d, pool.install(|| mg.count_positions(d, board, t))))
         }
+        "clicount" => {
+            // clicount <depth>: the `chess count-positions --depth <depth>` driver itself
+            // (game::position_counter::run_count_positions: one generator reused across the depths,
+            // standard starting position), its stdout captured and parsed
+            let d: u8 = toks[1].parse().unwrap();
+            let (res, out) = capture_stdout(|| {
+                catch_unwind(AssertUnwindSafe(|| {
+                    chess::game::position_counter::run_count_positions(d, chess::game::position_counter::CountPositionsStrategy::All)
+                }))
+            });
+            if res.is_err() {
+                "clicount PANIC".to_string()
+            } else {
+                let mut counts: Vec<String> = vec![];
+                let mut total = String::from("?");
+                for l in out.lines() {
+                    if let Some(rest) = l.strip_prefix("depth: ") {
+                        // depth: k, positions: n, positions per second: x
+                        let f: Vec<&str> = rest.split(", ").collect();
+                        if f.len() >= 2 {
+                            counts.push(format!("{}:{}", f[0], f[1].trim_start_matches("positions: ")));
+                        }
+                    } else if let Some(rest) = l.strip_prefix("total positions: ") {
+                        total = rest.split(',').next().unwrap_or("?").to_string();
+                    }
+                }
+                format!("clicount {} {} total:{}", d, counts.join(" "), total)
+            }
+        }
+        "watch" => {
+            // watch <move_limit> <depth>: the real `chess watch` loop (game::computer_vs_computer), no sleep,
+            // stdout captured: the notation of every move made, the half-move clock shown after it, and
+            // how the loop ended
+            let limit: u8 = toks[1].parse().unwrap();
+            let d: u8 = toks[2].parse().unwrap();
+            let (res, out) = capture_stdout(|| {
+                catch_unwind(AssertUnwindSafe(|| chess::game::computer_vs_computer::computer_vs_computer(limit, 0, d)))
+            });
+            let mut moves: Vec<String> = vec![];
+            let mut clocks: Vec<String> = vec![];
+            let mut end = "limit".to_string();
+            for l in out.lines() {
+                if let Some(rest) = l.strip_prefix("Last move: ") {
+                    moves.push(rest.trim().to_string());
+                } else if let Some(rest) = l.strip_prefix("* Halfmove clock: ") {
+                    clocks.push(rest.trim().to_string());
+                } else if l == "checkmate!" || l == "stalemate!" || l == "draw!" {
+                    end = l.trim_end_matches('!').to_string();
+                } else if let Some(rest) = l.strip_prefix("error: ") {
+                    end = format!("error[{}]", rest.replace(' ', "_"));
+                }
+            }
+            if res.is_err() {
+                end = "PANIC".to_string();
+            }
+            let mv: Vec<String> = moves.iter().zip(clocks.iter()).map(|(m, c)| format!("{}/{}", m, c)).collect();
+            let mut s = format!("watch {} {}", end, mv.join(" "));
+            if end.starts_with("error") || end == "PANIC" {
+                s.push_str(&format!("\n! C15 the watch loop (depth {}) ended with {} after {} moves", d, end, moves.len()));
+            }
+            s
+        }
         "book" => {
             // book <from><to> ... : continuations offered after this line, sorted
             if ex.book.is_none() {
@@ -601,6 +663,49 @@ extern "C" {
     fn write(fd: i32, buf: *const u8, n: usize) -> isize;
 }
 static STDIN_WRITE_FD: std::sync::atomic::AtomicI32 = std::sync::atomic::AtomicI32::new(-1);
+
+extern "C" {
+    fn dup(fd: i32) -> i32;
+    fn close(fd: i32) -> i32;
+    fn read(fd: i32, buf: *mut u8, n: usize) -> isize;
+}
+
+/// run `f` with this process's stdout redirected into a pipe that a helper thread drains
+pub fn capture_stdout<R, F: FnOnce() -> R>(f: F) -> (R, String) {
+    use std::io::Write;
+    std::io::stdout().flush().unwrap();
+    let mut fds = [0i32; 2];
+    let saved;
+    unsafe {
+        assert!(pipe(fds.as_mut_ptr()) == 0);
+        saved = dup(1);
+        assert!(saved >= 0);
+        assert!(dup2(fds[1], 1) == 1);
+        close(fds[1]);
+    }
+    let rfd = fds[0];
+    let reader = std::thread::spawn(move || {
+        let mut out: Vec<u8> = vec![];
+        let mut buf = [0u8; 65536];
+        loop {
+            let n = unsafe { read(rfd, buf.as_mut_ptr(), buf.len()) };
+            if n <= 0 {
+                break;
+            }
+            out.extend_from_slice(&buf[..n as usize]);
+        }
+        unsafe { close(rfd) };
+        out
+    });
+    let r = f();
+    std::io::stdout().flush().unwrap();
+    unsafe {
+        assert!(dup2(saved, 1) == 1);
+        close(saved);
+    }
+    let out = reader.join().unwrap();
+    (r, String::from_utf8_lossy(&out).to_string())
+}
 
 /// make this process's stdin a pipe (once) and write one line into it
 fn feed_stdin(line: &str) {
